@@ -61,9 +61,905 @@ impl StreamM {
     }
 }
 
-impl super::Model {
+
+use super::{bulk, int, strict_i64, upper, Entry, Exp, Model, Val};
+use crate::resp::R;
+
+type Fields = Vec<(Bytes, Bytes)>;
+
+fn fields_match(r: &R, f: &Fields) -> bool {
+    let v = match r {
+        R::Arr(v) => v,
+        _ => return false,
+    };
+    if v.len() != f.len() * 2 {
+        return false;
+    }
+    let mut got: Vec<(Bytes, Bytes)> = Vec::new();
+    for c in v.chunks(2) {
+        match (&c[0], &c[1]) {
+            (R::Bulk(k), R::Bulk(x)) => got.push((k.clone(), x.clone())),
+            _ => return false,
+        }
+    }
+    let mut want = f.clone();
+    got.sort();
+    want.sort();
+    got == want
+}
+
+fn entry_matches(r: &R, id: Id, f: &Fields) -> bool {
+    match r {
+        R::Arr(v) if v.len() == 2 => v[0] == R::Bulk(fmt_id(id).into_bytes()) && fields_match(&v[1], f),
+        _ => false,
+    }
+}
+
+fn entries_match(r: &R, want: &[(Id, Fields)]) -> bool {
+    match r {
+        R::Arr(v) => v.len() == want.len() && v.iter().zip(want.iter()).all(|(x, (id, f))| entry_matches(x, *id, f)),
+        R::NilArr => want.is_empty(),
+        _ => false,
+    }
+}
+
+fn exp_entries(want: Vec<(Id, Fields)>) -> Exp {
+    let desc = format!("entries [{}]", want.iter().map(|(id, f)| format!("{}:{}", fmt_id(*id), f.len())).collect::<Vec<_>>().join(" "));
+    let cls = format!("arr[{}]", want.len());
+    let _ = desc;
+    Exp::Pred(cls, Box::new(move |a| entries_match(a, &want)))
+}
+
+/// range bound: "-" "+" "ms-seq" "ms" (incomplete: low end -> seq 0, high end -> seq max)
+fn range_id(b: &[u8], high: bool) -> Option<Option<Id>> {
+    // Some(None) = don't care form (exclusive bound)
+    if b == b"-" {
+        return Some(Some((0, 0)));
+    }
+    if b == b"+" {
+        return Some(Some((u64::MAX, u64::MAX)));
+    }
+    if b.first() == Some(&b'(') {
+        return Some(None);
+    }
+    if let Some(id) = parse_id(b) {
+        return Some(Some(id));
+    }
+    let s = std::str::from_utf8(b).ok()?;
+    if !s.is_empty() && s.bytes().all(|c| c.is_ascii_digit()) {
+        let ms = s.parse::<u64>().ok()?;
+        return Some(Some((ms, if high { u64::MAX } else { 0 })));
+    }
+    None
+}
+
+impl Model {
+    fn stream_of(&mut self, db: usize, key: &[u8]) -> Result<Option<&mut StreamM>, ()> {
+        match self.get_mut(db, key) {
+            None => Ok(None),
+            Some(e) => match &mut e.val {
+                Val::Stream(s) => Ok(Some(s)),
+                _ => Err(()),
+            },
+        }
+    }
+
     /// stream / consumer-group commands; None = not a stream command
-    pub fn exec_stream(&mut self, _db: usize, _name: &str, _args: &[Bytes], _actual: &crate::resp::R) -> Option<super::Exp> {
-        None
+    pub fn exec_stream(&mut self, db: usize, name: &str, args: &[Bytes], actual: &R) -> Option<Exp> {
+        let n = args.len();
+        let wall = self.wall_ms;
+        Some(match name {
+            "XADD" => {
+                if n < 5 || (n - 3) % 2 != 0 {
+                    return Some(Exp::Err);
+                }
+                let auto = args[2] == b"*";
+                let explicit = if auto {
+                    None
+                } else {
+                    match parse_id(&args[2]) {
+                        Some(id) => Some(id),
+                        None => {
+                            // forms such as "5" or "5-*" are not in any alphabet
+                            let s = String::from_utf8_lossy(&args[2]).to_string();
+                            if s.ends_with("-*") || (!s.is_empty() && s.bytes().all(|c| c.is_ascii_digit())) {
+                                return Some(Exp::Any);
+                            }
+                            return Some(Exp::Err);
+                        }
+                    }
+                };
+                let fields: Fields = args[3..].chunks(2).map(|c| (c[0].clone(), c[1].clone())).collect();
+                let last = match self.stream_of(db, &args[1]) {
+                    Err(()) => return Some(Exp::Err),
+                    Ok(Some(s)) => s.last_id,
+                    Ok(None) => (0, 0),
+                };
+                let id = match explicit {
+                    Some(id) => {
+                        if id == (0, 0) || id <= last {
+                            return Some(Exp::Err);
+                        }
+                        id
+                    }
+                    None => {
+                        if wall > last.0 {
+                            (wall, 0)
+                        } else if last.1 == u64::MAX {
+                            if last.0 == u64::MAX {
+                                return Some(Exp::Err);
+                            }
+                            (last.0 + 1, 0)
+                        } else {
+                            (last.0, last.1 + 1)
+                        }
+                    }
+                };
+                if self.get(db, &args[1]).is_none() {
+                    self.set(db, &args[1], Val::Stream(StreamM::default()), None);
+                }
+                if let Some(Entry { val: Val::Stream(s), .. }) = self.dbs[db].keys.get_mut(&args[1]) {
+                    s.entries.insert(id, fields);
+                    s.last_id = id;
+                }
+                Exp::Is(R::Bulk(fmt_id(id).into_bytes()))
+            }
+            "XLEN" => {
+                if n != 2 {
+                    return Some(Exp::Err);
+                }
+                match self.stream_of(db, &args[1]) {
+                    Err(()) => Exp::Err,
+                    Ok(None) => Exp::Is(int(0)),
+                    Ok(Some(s)) => Exp::Is(int(s.entries.len() as i64)),
+                }
+            }
+            "XRANGE" | "XREVRANGE" => {
+                if n != 4 && n != 6 {
+                    return Some(Exp::Err);
+                }
+                let rev = name == "XREVRANGE";
+                let count = if n == 6 {
+                    if upper(&args[4]) != "COUNT" {
+                        return Some(Exp::Err);
+                    }
+                    match strict_i64(&args[5]) {
+                        Some(c) if c >= 0 => Some(c as usize),
+                        Some(_) => return Some(Exp::Any),
+                        None => return Some(Exp::Err),
+                    }
+                } else {
+                    None
+                };
+                let (lo_arg, hi_arg) = if rev { (&args[3], &args[2]) } else { (&args[2], &args[3]) };
+                let lo = match range_id(lo_arg, false) {
+                    Some(Some(x)) => x,
+                    Some(None) => return Some(Exp::Any),
+                    None => return Some(Exp::Err),
+                };
+                let hi = match range_id(hi_arg, true) {
+                    Some(Some(x)) => x,
+                    Some(None) => return Some(Exp::Any),
+                    None => return Some(Exp::Err),
+                };
+                match self.stream_of(db, &args[1]) {
+                    Err(()) => Exp::Err,
+                    Ok(None) => Exp::Is(R::Arr(vec![])),
+                    Ok(Some(s)) => {
+                        let mut sel: Vec<(Id, Fields)> = if lo <= hi { s.entries.range(lo..=hi).map(|(i, f)| (*i, f.clone())).collect() } else { vec![] };
+                        if rev {
+                            sel.reverse();
+                        }
+                        if let Some(c) = count {
+                            sel.truncate(c);
+                        }
+                        exp_entries(sel)
+                    }
+                }
+            }
+            "XDEL" => {
+                if n < 3 {
+                    return Some(Exp::Err);
+                }
+                let mut ids = Vec::new();
+                for a in &args[2..] {
+                    match parse_id(a) {
+                        Some(i) => ids.push(i),
+                        None => return Some(Exp::Err),
+                    }
+                }
+                match self.stream_of(db, &args[1]) {
+                    Err(()) => Exp::Err,
+                    Ok(None) => Exp::Is(int(0)),
+                    Ok(Some(s)) => {
+                        let mut c = 0;
+                        for i in ids {
+                            if s.entries.remove(&i).is_some() {
+                                c += 1;
+                            }
+                        }
+                        Exp::Is(int(c))
+                    }
+                }
+            }
+            "XTRIM" => {
+                if n != 4 && n != 5 {
+                    return Some(Exp::Err);
+                }
+                if upper(&args[2]) != "MAXLEN" {
+                    return Some(Exp::Any); // MINID is not in any alphabet
+                }
+                let (approx, narg) = if n == 5 {
+                    match args[3].as_slice() {
+                        b"~" => (true, &args[4]),
+                        b"=" => (false, &args[4]),
+                        _ => return Some(Exp::Err),
+                    }
+                } else {
+                    (false, &args[3])
+                };
+                let max = match strict_i64(narg) {
+                    Some(m) if m >= 0 => m as usize,
+                    _ => return Some(Exp::Err),
+                };
+                match self.stream_of(db, &args[1]) {
+                    Err(()) => Exp::Err,
+                    Ok(None) => Exp::Is(int(0)),
+                    Ok(Some(s)) => {
+                        let exact = s.entries.len().saturating_sub(max);
+                        if approx {
+                            // any number between 0 and the exact amount: adopt what was removed
+                            let took = match actual {
+                                R::Int(i) if *i >= 0 && (*i as usize) <= exact => *i as usize,
+                                _ => exact,
+                            };
+                            let ids: Vec<Id> = s.entries.keys().take(took).cloned().collect();
+                            for i in ids {
+                                s.entries.remove(&i);
+                            }
+                            return Some(Exp::IntIn(0, exact as i64));
+                        }
+                        let ids: Vec<Id> = s.entries.keys().take(exact).cloned().collect();
+                        for i in ids {
+                            s.entries.remove(&i);
+                        }
+                        Exp::Is(int(exact as i64))
+                    }
+                }
+            }
+            "XREAD" => {
+                // XREAD [COUNT n] STREAMS k... id...
+                let mut i = 1;
+                let mut count: Option<usize> = None;
+                while i < n {
+                    let o = upper(&args[i]);
+                    if o == "COUNT" {
+                        if i + 1 >= n {
+                            return Some(Exp::Err);
+                        }
+                        match strict_i64(&args[i + 1]) {
+                            Some(c) if c > 0 => count = Some(c as usize),
+                            Some(_) => return Some(Exp::Any),
+                            None => return Some(Exp::Err),
+                        }
+                        i += 2;
+                    } else if o == "BLOCK" {
+                        return Some(Exp::Any);
+                    } else if o == "STREAMS" {
+                        i += 1;
+                        break;
+                    } else {
+                        return Some(Exp::Err);
+                    }
+                }
+                let rest = &args[i.min(n)..];
+                if rest.is_empty() || rest.len() % 2 != 0 {
+                    return Some(Exp::Err);
+                }
+                let k = rest.len() / 2;
+                let mut want: Vec<(Bytes, Vec<(Id, Fields)>)> = Vec::new();
+                let mut dollar_alt: Vec<(Bytes, Vec<(Id, Fields)>)> = Vec::new();
+                let mut has_alt = false;
+                for j in 0..k {
+                    let key = &rest[j];
+                    let idb = &rest[k + j];
+                    let st = match self.stream_of(db, key) {
+                        Err(()) => return Some(Exp::Err),
+                        Ok(None) => {
+                            if idb.as_slice() != b"$" && range_id(idb, false).is_none() {
+                                return Some(Exp::Err);
+                            }
+                            continue;
+                        }
+                        Ok(Some(s)) => s.clone(),
+                    };
+                    let (after, alt) = if idb.as_slice() == b"$" {
+                        let top = st.entries.keys().next_back().cloned().unwrap_or((0, 0));
+                        (st.last_id, if top != st.last_id { Some(top) } else { None })
+                    } else {
+                        match range_id(idb, false) {
+                            Some(Some(x)) => (x, None),
+                            Some(None) => return Some(Exp::Any),
+                            None => return Some(Exp::Err),
+                        }
+                    };
+                    let sel = |a: Id| -> Vec<(Id, Fields)> {
+                        let mut v: Vec<(Id, Fields)> = st.entries.iter().filter(|(i, _)| **i > a).map(|(i, f)| (*i, f.clone())).collect();
+                        if let Some(c) = count {
+                            v.truncate(c);
+                        }
+                        v
+                    };
+                    let main = sel(after);
+                    if !main.is_empty() {
+                        want.push((key.clone(), main.clone()));
+                    }
+                    let other = match alt {
+                        Some(a) => {
+                            has_alt = true;
+                            sel(a)
+                        }
+                        None => main,
+                    };
+                    if !other.is_empty() {
+                        dollar_alt.push((key.clone(), other));
+                    }
+                }
+                let mk = |w: Vec<(Bytes, Vec<(Id, Fields)>)>| -> Exp {
+                    let cls = if w.is_empty() { "arr[0]".to_string() } else { format!("arr[{}]", w.len()) };
+                    Exp::Pred(cls, Box::new(move |a| match a {
+                        R::NilArr | R::Nil => w.is_empty(),
+                        R::Arr(v) => v.len() == w.len() && v.iter().zip(w.iter()).all(|(x, (k, es))| match x {
+                            R::Arr(p) if p.len() == 2 => p[0] == R::Bulk(k.clone()) && entries_match(&p[1], es),
+                            _ => false,
+                        }),
+                        _ => false,
+                    }))
+                };
+                if has_alt {
+                    Exp::OneOf(vec![mk(want), mk(dollar_alt)])
+                } else {
+                    mk(want)
+                }
+            }
+            "XGROUP" | "XREADGROUP" | "XACK" | "XCLAIM" | "XPENDING" | "XINFO" => return Some(self.exec_group(db, name, args, actual)),
+            _ => return None,
+        })
+    }
+
+    fn exec_group(&mut self, db: usize, name: &str, args: &[Bytes], _actual: &R) -> Exp {
+        let n = args.len();
+        let wall = self.wall_ms;
+        let s = |b: &Bytes| String::from_utf8_lossy(b).to_string();
+        match name {
+            "XGROUP" => {
+                if n < 2 {
+                    return Exp::Err;
+                }
+                let sub = upper(&args[1]);
+                match sub.as_str() {
+                    "CREATE" => {
+                        if n != 5 && n != 6 {
+                            return Exp::Err;
+                        }
+                        let mk = if n == 6 {
+                            if upper(&args[5]) == "MKSTREAM" {
+                                true
+                            } else {
+                                return Exp::Any;
+                            }
+                        } else {
+                            false
+                        };
+                        let idarg = args[4].clone();
+                        let st = match self.stream_of(db, &args[2]) {
+                            Err(()) => return Exp::Err,
+                            Ok(x) => x.map(|s| s.clone()),
+                        };
+                        if st.is_none() && !mk {
+                            return Exp::Err;
+                        }
+                        let cur = st.clone().unwrap_or_default();
+                        let cursor = if idarg.as_slice() == b"$" {
+                            cur.last_id
+                        } else {
+                            match range_id(&idarg, false) {
+                                Some(Some(x)) => x,
+                                _ => return Exp::Err,
+                            }
+                        };
+                        if cur.groups.contains_key(&s(&args[3])) {
+                            return Exp::Err;
+                        }
+                        if st.is_none() {
+                            self.set(db, &args[2], Val::Stream(StreamM::default()), None);
+                        }
+                        if let Some(Entry { val: Val::Stream(sm), .. }) = self.dbs[db].keys.get_mut(&args[2]) {
+                            sm.groups.insert(s(&args[3]), GroupM { cursor, ..Default::default() });
+                        }
+                        Exp::Is(R::ok())
+                    }
+                    "DESTROY" => {
+                        if n != 4 {
+                            return Exp::Err;
+                        }
+                        match self.stream_of(db, &args[2]) {
+                            Err(()) => Exp::Err,
+                            Ok(None) => Exp::OneOf(vec![Exp::Is(int(0)), Exp::Err]),
+                            Ok(Some(sm)) => Exp::Is(int(sm.groups.remove(&s(&args[3])).is_some() as i64)),
+                        }
+                    }
+                    "SETID" => {
+                        if n != 5 {
+                            return Exp::Err;
+                        }
+                        let idarg = args[4].clone();
+                        match self.stream_of(db, &args[2]) {
+                            Err(()) | Ok(None) => Exp::Err,
+                            Ok(Some(sm)) => {
+                                let cursor = if idarg.as_slice() == b"$" {
+                                    sm.last_id
+                                } else {
+                                    match range_id(&idarg, false) {
+                                        Some(Some(x)) => x,
+                                        _ => return Exp::Err,
+                                    }
+                                };
+                                match sm.groups.get_mut(&s(&args[3])) {
+                                    Some(g) => {
+                                        g.cursor = cursor;
+                                        Exp::Is(R::ok())
+                                    }
+                                    None => Exp::Err,
+                                }
+                            }
+                        }
+                    }
+                    "CREATECONSUMER" => {
+                        if n != 5 {
+                            return Exp::Err;
+                        }
+                        match self.stream_of(db, &args[2]) {
+                            Err(()) | Ok(None) => Exp::Err,
+                            Ok(Some(sm)) => match sm.groups.get_mut(&s(&args[3])) {
+                                Some(g) => Exp::Is(int(g.consumers.insert(s(&args[4])) as i64)),
+                                None => Exp::Err,
+                            },
+                        }
+                    }
+                    "DELCONSUMER" => {
+                        if n != 5 {
+                            return Exp::Err;
+                        }
+                        match self.stream_of(db, &args[2]) {
+                            Err(()) | Ok(None) => Exp::Err,
+                            Ok(Some(sm)) => match sm.groups.get_mut(&s(&args[3])) {
+                                Some(g) => {
+                                    let c = s(&args[4]);
+                                    let ids: Vec<Id> = g.pel.iter().filter(|(_, v)| v.0 == c).map(|(i, _)| *i).collect();
+                                    for i in ids.iter() {
+                                        g.pel.remove(i);
+                                    }
+                                    g.consumers.remove(&c);
+                                    Exp::Is(int(ids.len() as i64))
+                                }
+                                None => Exp::Err,
+                            },
+                        }
+                    }
+                    _ => Exp::Err,
+                }
+            }
+            "XREADGROUP" => {
+                // XREADGROUP GROUP g c [COUNT n] [NOACK] STREAMS k id   (one stream only in our alphabets)
+                if n < 7 || upper(&args[1]) != "GROUP" {
+                    return Exp::Err;
+                }
+                let (g, c) = (s(&args[2]), s(&args[3]));
+                let mut i = 4;
+                let mut count: Option<usize> = None;
+                let mut noack = false;
+                while i < n {
+                    let o = upper(&args[i]);
+                    match o.as_str() {
+                        "COUNT" => {
+                            if i + 1 >= n {
+                                return Exp::Err;
+                            }
+                            match strict_i64(&args[i + 1]) {
+                                Some(x) if x > 0 => count = Some(x as usize),
+                                Some(_) => return Exp::Any,
+                                None => return Exp::Err,
+                            }
+                            i += 2;
+                        }
+                        "NOACK" => {
+                            noack = true;
+                            i += 1;
+                        }
+                        "BLOCK" => return Exp::Any,
+                        "STREAMS" => {
+                            i += 1;
+                            break;
+                        }
+                        _ => return Exp::Err,
+                    }
+                }
+                let rest = &args[i.min(n)..];
+                if rest.len() != 2 {
+                    return if rest.is_empty() || rest.len() % 2 != 0 { Exp::Err } else { Exp::Any };
+                }
+                let key = rest[0].clone();
+                let idb = rest[1].clone();
+                let sm = match self.stream_of(db, &key) {
+                    Err(()) => return Exp::Err,
+                    Ok(None) => return Exp::Err,
+                    Ok(Some(sm)) => sm,
+                };
+                let entries = sm.entries.clone();
+                let grp = match sm.groups.get_mut(&g) {
+                    Some(x) => x,
+                    None => return Exp::Err,
+                };
+                grp.consumers.insert(c.clone());
+                if idb.as_slice() == b">" {
+                    let mut sel: Vec<(Id, Fields)> = entries.iter().filter(|(i, _)| **i > grp.cursor).map(|(i, f)| (*i, f.clone())).collect();
+                    if let Some(k) = count {
+                        sel.truncate(k);
+                    }
+                    if let Some((last, _)) = sel.last() {
+                        grp.cursor = *last;
+                    }
+                    if !noack {
+                        for (i, _) in sel.iter() {
+                            grp.pel.insert(*i, (c.clone(), wall, 1));
+                        }
+                    }
+                    let w = sel;
+                    let cls = format!("arr[{}]", if w.is_empty() { 0 } else { 1 });
+                    Exp::Pred(cls, Box::new(move |a| match a {
+                        R::NilArr | R::Nil => w.is_empty(),
+                        R::Arr(v) if w.is_empty() => v.is_empty() || (v.len() == 1 && matches!(&v[0], R::Arr(p) if p.len() == 2 && entries_match(&p[1], &[]))),
+                        R::Arr(v) => v.len() == 1 && matches!(&v[0], R::Arr(p) if p.len() == 2 && p[0] == R::Bulk(key.clone()) && entries_match(&p[1], &w)),
+                        _ => false,
+                    }))
+                } else {
+                    let after = match range_id(&idb, false) {
+                        Some(Some(x)) => x,
+                        _ => return Exp::Err,
+                    };
+                    // the consumer's own pending entries after the id; entries deleted from the stream: DC
+                    let mine: Vec<Id> = grp.pel.iter().filter(|(i, v)| **i > after && v.0 == c).map(|(i, _)| *i).collect();
+                    let mut sel: Vec<Id> = mine;
+                    if let Some(k) = count {
+                        sel.truncate(k);
+                    }
+                    for i in sel.iter() {
+                        if let Some(p) = grp.pel.get_mut(i) {
+                            p.2 += 1;
+                        }
+                    }
+                    let present: Vec<(Id, Fields)> = sel.iter().filter_map(|i| entries.get(i).map(|f| (*i, f.clone()))).collect();
+                    let any_deleted = present.len() != sel.len();
+                    let w = present;
+                    let ids: Vec<Id> = sel.clone();
+                    let cls = format!("history[{}]", ids.len());
+                    Exp::Pred(cls, Box::new(move |a| {
+                        let inner: Vec<R> = match a {
+                            R::NilArr | R::Nil => vec![],
+                            R::Arr(v) if v.is_empty() => vec![],
+                            R::Arr(v) if v.len() == 1 => match &v[0] {
+                                R::Arr(p) if p.len() == 2 => match &p[1] {
+                                    R::Arr(es) => es.clone(),
+                                    R::NilArr => vec![],
+                                    _ => return false,
+                                },
+                                _ => return false,
+                            },
+                            _ => return false,
+                        };
+                        if any_deleted {
+                            // ids must be the pending ones in order; bodies of deleted entries are don't-care
+                            inner.len() == ids.len() && inner.iter().zip(ids.iter()).all(|(x, id)| matches!(x, R::Arr(p) if !p.is_empty() && p[0] == R::Bulk(fmt_id(*id).into_bytes())))
+                                || entries_match(&R::Arr(inner.clone()), &w)
+                        } else {
+                            entries_match(&R::Arr(inner), &w)
+                        }
+                    }))
+                }
+            }
+            "XACK" => {
+                if n < 4 {
+                    return Exp::Err;
+                }
+                let mut ids = Vec::new();
+                for a in &args[3..] {
+                    match parse_id(a) {
+                        Some(i) => ids.push(i),
+                        None => return Exp::Err,
+                    }
+                }
+                match self.stream_of(db, &args[1]) {
+                    Err(()) => Exp::Err,
+                    Ok(None) => Exp::Is(int(0)),
+                    Ok(Some(sm)) => match sm.groups.get_mut(&s(&args[2])) {
+                        None => Exp::Is(int(0)),
+                        Some(g) => {
+                            let mut c = 0;
+                            for i in ids {
+                                if g.pel.remove(&i).is_some() {
+                                    c += 1;
+                                }
+                            }
+                            Exp::Is(int(c))
+                        }
+                    },
+                }
+            }
+            "XCLAIM" => {
+                // XCLAIM k g c min-idle id... [FORCE] [JUSTID]
+                if n < 6 {
+                    return Exp::Err;
+                }
+                let min_idle = match strict_i64(&args[4]) {
+                    Some(x) if x >= 0 => x as u64,
+                    _ => return Exp::Err,
+                };
+                let mut ids = Vec::new();
+                let mut force = false;
+                let mut justid = false;
+                for a in &args[5..] {
+                    let o = upper(a);
+                    if o == "FORCE" {
+                        force = true;
+                    } else if o == "JUSTID" {
+                        justid = true;
+                    } else if let Some(i) = parse_id(a) {
+                        ids.push(i);
+                    } else {
+                        return Exp::Any; // IDLE/TIME/RETRYCOUNT options are not in any alphabet
+                    }
+                }
+                let c = s(&args[3]);
+                let sm = match self.stream_of(db, &args[1]) {
+                    Err(()) => return Exp::Err,
+                    Ok(None) => return Exp::Err,
+                    Ok(Some(sm)) => sm,
+                };
+                let entries = sm.entries.clone();
+                let g = match sm.groups.get_mut(&s(&args[2])) {
+                    Some(g) => g,
+                    None => return Exp::Err,
+                };
+                g.consumers.insert(c.clone());
+                let mut claimed: Vec<Id> = Vec::new();
+                for i in ids {
+                    let in_pel = g.pel.contains_key(&i);
+                    if in_pel {
+                        let idle = wall.saturating_sub(g.pel[&i].1);
+                        if idle >= min_idle {
+                            let cnt = g.pel[&i].2;
+                            if entries.contains_key(&i) {
+                                g.pel.insert(i, (c.clone(), wall, if justid { cnt } else { cnt + 1 }));
+                                claimed.push(i);
+                            } else {
+                                // entry deleted from the stream: Redis drops it from the PEL; DC -> keep it simple: drop
+                                g.pel.remove(&i);
+                            }
+                        }
+                    } else if force && entries.contains_key(&i) {
+                        g.pel.insert(i, (c.clone(), wall, 1));
+                        claimed.push(i);
+                    }
+                }
+                if justid {
+                    Exp::Is(R::Arr(claimed.iter().map(|i| R::Bulk(fmt_id(*i).into_bytes())).collect()))
+                } else {
+                    exp_entries(claimed.iter().map(|i| (*i, entries[i].clone())).collect())
+                }
+            }
+            "XPENDING" => {
+                if n != 3 && n != 6 && n != 7 {
+                    return Exp::Err;
+                }
+                let sm = match self.stream_of(db, &args[1]) {
+                    Err(()) => return Exp::Err,
+                    Ok(None) => return Exp::OneOf(vec![Exp::Err, Exp::Is(R::NilArr)]),
+                    Ok(Some(sm)) => sm.clone(),
+                };
+                let g = match sm.groups.get(&s(&args[2])) {
+                    Some(g) => g.clone(),
+                    None => return Exp::OneOf(vec![Exp::Err, Exp::Is(R::NilArr)]),
+                };
+                if n == 3 {
+                    let total = g.pel.len() as i64;
+                    let min = g.pel.keys().next().cloned();
+                    let max = g.pel.keys().next_back().cloned();
+                    let mut per: std::collections::BTreeMap<String, i64> = std::collections::BTreeMap::new();
+                    for (_, v) in g.pel.iter() {
+                        *per.entry(v.0.clone()).or_insert(0) += 1;
+                    }
+                    let cls = format!("summary total={}", total);
+                    Exp::Pred(cls, Box::new(move |a| {
+                        let v = match a {
+                            R::Arr(v) if v.len() == 4 => v,
+                            _ => return false,
+                        };
+                        if v[0] != R::Int(total) {
+                            return false;
+                        }
+                        let idok = |r: &R, want: Option<Id>| match want {
+                            Some(i) => *r == R::Bulk(fmt_id(i).into_bytes()),
+                            None => matches!(r, R::Nil),
+                        };
+                        if !idok(&v[1], min) || !idok(&v[2], max) {
+                            return false;
+                        }
+                        let list: Vec<R> = match &v[3] {
+                            R::Arr(l) => l.clone(),
+                            R::NilArr | R::Nil => vec![],
+                            _ => return false,
+                        };
+                        let mut got: std::collections::BTreeMap<String, i64> = std::collections::BTreeMap::new();
+                        for x in list {
+                            match x {
+                                R::Arr(p) if p.len() == 2 => {
+                                    let name = match &p[0] {
+                                        R::Bulk(b) => String::from_utf8_lossy(b).to_string(),
+                                        _ => return false,
+                                    };
+                                    let cnt = match &p[1] {
+                                        R::Int(i) => *i,
+                                        R::Bulk(b) => match std::str::from_utf8(b).ok().and_then(|s| s.parse::<i64>().ok()) {
+                                            Some(i) => i,
+                                            None => return false,
+                                        },
+                                        _ => return false,
+                                    };
+                                    if cnt != 0 {
+                                        if got.insert(name, cnt).is_some() {
+                                            return false;
+                                        }
+                                    }
+                                }
+                                _ => return false,
+                            }
+                        }
+                        got == per
+                    }))
+                } else {
+                    let lo = match range_id(&args[3], false) {
+                        Some(Some(x)) => x,
+                        Some(None) => return Exp::Any,
+                        None => return Exp::Err,
+                    };
+                    let hi = match range_id(&args[4], true) {
+                        Some(Some(x)) => x,
+                        Some(None) => return Exp::Any,
+                        None => return Exp::Err,
+                    };
+                    let cnt = match strict_i64(&args[5]) {
+                        Some(c) if c >= 0 => c as usize,
+                        _ => return Exp::Err,
+                    };
+                    let only = if n == 7 { Some(s(&args[6])) } else { None };
+                    let mut sel: Vec<(Id, String, u64)> = g.pel.iter().filter(|(i, v)| **i >= lo && **i <= hi && only.as_ref().map(|c| *c == v.0).unwrap_or(true)).map(|(i, v)| (*i, v.0.clone(), wall.saturating_sub(v.1))).collect();
+                    sel.truncate(cnt);
+                    let cls = format!("pending[{}]", sel.len());
+                    Exp::Pred(cls, Box::new(move |a| {
+                        let v: Vec<R> = match a {
+                            R::Arr(v) => v.clone(),
+                            R::NilArr => vec![],
+                            _ => return false,
+                        };
+                        v.len() == sel.len() && v.iter().zip(sel.iter()).all(|(x, (id, c, idle))| match x {
+                            R::Arr(p) if p.len() == 4 => {
+                                p[0] == R::Bulk(fmt_id(*id).into_bytes()) && p[1] == R::Bulk(c.clone().into_bytes())
+                                    && matches!(&p[2], R::Int(i) if (*i - *idle as i64).abs() <= 1) && matches!(&p[3], R::Int(_))
+                            }
+                            _ => false,
+                        })
+                    }))
+                }
+            }
+            "XINFO" => {
+                if n < 3 {
+                    return Exp::Err;
+                }
+                let sub = upper(&args[1]);
+                let sm = match self.stream_of(db, &args[2]) {
+                    Err(()) => return Exp::Err,
+                    Ok(None) => return Exp::Err,
+                    Ok(Some(sm)) => sm.clone(),
+                };
+                fn field<'a>(item: &'a R, name: &str) -> Option<&'a R> {
+                    let v = match item {
+                        R::Arr(v) => v,
+                        _ => return None,
+                    };
+                    let mut it = v.chunks(2);
+                    while let Some(c) = it.next() {
+                        if c.len() == 2 {
+                            if let Some(k) = c[0].as_bytes() {
+                                if k == name.as_bytes() {
+                                    return Some(&c[1]);
+                                }
+                            }
+                        }
+                    }
+                    None
+                }
+                match sub.as_str() {
+                    "GROUPS" => {
+                        if n != 3 {
+                            return Exp::Err;
+                        }
+                        let want: Vec<(String, i64, i64, String)> = sm.groups.iter().map(|(name, g)| (name.clone(), g.consumers.len() as i64, g.pel.len() as i64, fmt_id(g.cursor))).collect();
+                        let cls = format!("groups[{}]", want.len());
+                        Exp::Pred(cls, Box::new(move |a| {
+                            let v: Vec<R> = match a {
+                                R::Arr(v) => v.clone(),
+                                R::NilArr => vec![],
+                                _ => return false,
+                            };
+                            if v.len() != want.len() {
+                                return false;
+                            }
+                            let mut got: Vec<(String, i64, i64, String)> = Vec::new();
+                            for item in v.iter() {
+                                let name = field(item, "name").and_then(|r| r.as_bytes()).map(|b| String::from_utf8_lossy(b).to_string());
+                                let cons = field(item, "consumers").and_then(|r| if let R::Int(i) = r { Some(*i) } else { None });
+                                let pend = field(item, "pending").and_then(|r| if let R::Int(i) = r { Some(*i) } else { None });
+                                let last = field(item, "last-delivered-id").and_then(|r| r.as_bytes()).map(|b| String::from_utf8_lossy(b).to_string());
+                                match (name, cons, pend, last) {
+                                    (Some(a), Some(b), Some(c), Some(d)) => got.push((a, b, c, d)),
+                                    _ => return false,
+                                }
+                            }
+                            got.sort();
+                            let mut w = want.clone();
+                            w.sort();
+                            got == w
+                        }))
+                    }
+                    "CONSUMERS" => {
+                        if n != 4 {
+                            return Exp::Err;
+                        }
+                        let g = match sm.groups.get(&s(&args[3])) {
+                            Some(g) => g.clone(),
+                            None => return Exp::Err,
+                        };
+                        let want: Vec<(String, i64)> = g.consumers.iter().map(|c| (c.clone(), g.pel.values().filter(|v| v.0 == *c).count() as i64)).collect();
+                        let cls = format!("consumers[{}]", want.len());
+                        Exp::Pred(cls, Box::new(move |a| {
+                            let v: Vec<R> = match a {
+                                R::Arr(v) => v.clone(),
+                                R::NilArr => vec![],
+                                _ => return false,
+                            };
+                            if v.len() != want.len() {
+                                return false;
+                            }
+                            let mut got: Vec<(String, i64)> = Vec::new();
+                            for item in v.iter() {
+                                let name = field(item, "name").and_then(|r| r.as_bytes()).map(|b| String::from_utf8_lossy(b).to_string());
+                                let pend = field(item, "pending").and_then(|r| if let R::Int(i) = r { Some(*i) } else { None });
+                                match (name, pend) {
+                                    (Some(a), Some(b)) => got.push((a, b)),
+                                    _ => return false,
+                                }
+                            }
+                            got.sort();
+                            let mut w = want.clone();
+                            w.sort();
+                            got == w
+                        }))
+                    }
+                    _ => Exp::Any,
+                }
+            }
+            _ => Exp::Err,
+        }
     }
 }
